@@ -83,7 +83,12 @@ func (m *Model) UpdatePositions(positions *traits.OpenClosePositions, opts ...re
 	opts = append(opts, resource.WithCreateIfAbsent())
 
 	for _, state := range positions.States {
-		_, err := m.positions.Update(directionToID(state.Direction), state, opts...)
+		// a position is keyed by its direction: keep the two in step even if the update mask leaves direction out
+		dir := state.Direction
+		stateOpts := append(opts[:len(opts):len(opts)], resource.InterceptAfter(func(_, new proto.Message) {
+			new.(*traits.OpenClosePosition).Direction = dir
+		}))
+		_, err := m.positions.Update(directionToID(dir), state, stateOpts...)
 		if err != nil {
 			return nil, err
 		}
